@@ -69,7 +69,9 @@ func (m *objectMap) flush(db *DB) (err error) {
 
 	for _, o := range m.m {
 		if e := db.writeObject(o); e != nil {
+			// object stays pending if it could not be written
 			err = e
+			continue
 		}
 		// we delete object from the list of objects to save
 		m.delete(o.UUID())
@@ -490,8 +492,9 @@ func (db *DB) search(o Object, field, operator string, value interface{}, constr
 
 func (db *DB) flush(o Object) (err error) {
 
-	if e := db.writeObject(o); e != nil {
-		err = e
+	// object stays pending if it could not be written
+	if err = db.writeObject(o); err != nil {
+		return
 	}
 
 	// we delete object from the list of objects to save
